@@ -400,11 +400,65 @@ async def run_batch(part, seqs, prop, refused_check=True):
         m.close()
 
 
+async def vanished_selection(part, prop, backend):
+    """the selected mailbox is deleted or renamed away by another connection: CLOSE still succeeds and deselects, and the connection can go on"""
+    from pymap.imap import IMAPServer
+    base = None
+    if backend == 'dict':
+        be, config = await backends.make_dict(users=[('bob', 'pwbob', ())], bad_command_limit=None)
+        login = be.login
+    else:
+        base = backends.scratch_dir('pymap-verif-c05-')
+        config, login = await backends.make_maildir(base, users=[('bob', 'pwbob', ())], bad_command_limit=None)
+    try:
+        srv = IMAPServer(login, config)
+        for how in (b'DELETE gone', b'RENAME gone elsewhere'):
+            a, b = wire.Client(srv), wire.Client(srv)
+            await a.start()
+            await b.start()
+            await a.send(b'a LOGIN bob pwbob\r\n')
+            await b.send(b'b LOGIN bob pwbob\r\n')
+            await a.send(b'a CREATE gone\r\n')
+            await a.send(b'a DELETE elsewhere\r\n')
+            raw = await a.send(b'a SELECT gone\r\n')
+            case = dict(scenario='vanished-selection', backend=backend, how=how.decode())
+            part.case(key=f'vanished:{backend}:{how.decode()}', nontrivial=True)
+            if b'a OK' not in raw:
+                continue
+            await b.send(b'b ' + how + b'\r\n')
+            out = []
+            for line in (b'CLOSE', b'CLOSE', b'NOOP', b'SELECT INBOX'):
+                if a.task.done():
+                    out.append(b'<closed>')
+                    break
+                out.append((await a.send(b'a ' + line + b'\r\n'))[-60:])
+            ok = [b'a OK' in out[0] or b'BYE' in out[0]]
+            if b'BYE' not in out[0]:
+                ok += [len(out) > 1 and out[1].startswith(b'a BAD'), len(out) > 2 and b'a OK' in out[2], len(out) > 3 and b'a OK' in out[3]]
+            if not all(ok):
+                part.violation('monitor', f'{prop}: {backend}: after `{how.decode()}` by another connection, CLOSE / CLOSE / NOOP / SELECT INBOX on the connection that had the mailbox '
+                               f'selected answered {out!r}; expected OK (deselected), BAD (nothing selected), OK, OK', case, signature='vanished-selection')
+            await a.eof()
+            await b.eof()
+    finally:
+        if base:
+            backends.rmtree(base)
+
+
 def worker(job):
     seed, seqs, prop, refused = job
     part = Part()
     with guarded(part, f'{prop} connection sequences', dict(seed=seed)):
         asyncio.run(run_batch(part, seqs, prop, refused))
+    return part.result()
+
+
+def vanished_worker(job):
+    prop, = job
+    part = Part()
+    for backend in ('dict', 'maildir'):
+        with guarded(part, f'{prop} vanished selection', dict(scenario='vanished-selection', backend=backend)):
+            asyncio.run(vanished_selection(part, prop, backend))
     return part.result()
 
 
@@ -458,6 +512,8 @@ def run(ctx, prop='C05', core=None, alpha=None):
     nw = ctx.workers
     chunks = [seqs[k::nw * 2] for k in range(nw * 2)]
     ctx.pmap(worker, [(ctx.seed, ch, prop, True) for ch in chunks if ch])
+    if prop == 'C05':
+        ctx.pmap(vanished_worker, [(prop,)])
 
 
 def replay(case):
